@@ -6,6 +6,7 @@ import (
 	"path/filepath"
 	"strings"
 	"testing"
+	"time"
 
 	"pgregory.net/rapid"
 
@@ -256,4 +257,102 @@ func TestC05Bin(t *testing.T) {
 		}
 	}
 	hx.RunCases(t, st, cases, runC05Bin, hx.PropOpts{})
+}
+
+// ---- C05 huge uploads: one WRITE_FILE announcing 2 GiB or more --------------------------------------------------
+//
+// The reply of WRITE_FILE is a signed 32-bit count. A request whose payload cannot be acknowledged truthfully must
+// not be carried out and then reported as a failure (or as a negative count): either it is refused (-1, nothing
+// written, payload consumed, connection in step) or acknowledged with its exact count.
+
+type c05HugeCase struct {
+	N uint32 `json:"n"`
+}
+
+func runC05Huge(c c05HugeCase, st *hx.Stats) error {
+	root, err := hx.Scratch("c05huge")
+	if err != nil {
+		return err
+	}
+	defer os.RemoveAll(root)
+	tg, err := hx.StartInproc(root, hx.InprocOpts{AllowWrite: true})
+	if err != nil {
+		return err
+	}
+	defer tg.Close()
+	conn, err := hx.Dial(tg.Addr)
+	if err != nil {
+		return err
+	}
+	defer conn.Close()
+	conn.Timeout = 120 * time.Second
+	m := hx.NewModel(root, true)
+	if err := m.Step(conn, hx.Req{Op: "CREATE", Path: "/up.bin"}); err != nil {
+		return err
+	}
+	hdr := hx.Req{Op: "WRITE", N: c.N}.Encode()[:16]
+	if err := conn.Send(hdr); err != nil {
+		return err
+	}
+	zeros := make([]byte, 4<<20)
+	for left := int64(c.N); left > 0; {
+		k := int64(len(zeros))
+		if k > left {
+			k = left
+		}
+		if err := conn.Send(zeros[:k]); err != nil {
+			return hx.Failf("transport", "sending the payload failed after %d of %d bytes: %v", int64(c.N)-left, c.N, err)
+		}
+		left -= k
+	}
+	rep, closed, err := conn.ReadN(4)
+	if err != nil {
+		return err
+	}
+	if closed {
+		return hx.Failf("reply-layout", "WRITE(n=%d): connection ended after %d of 4 reply bytes", c.N, len(rep))
+	}
+	res := int64(int32(uint32(rep[0])<<24 | uint32(rep[1])<<16 | uint32(rep[2])<<8 | uint32(rep[3])))
+	fi, serr := os.Stat(filepath.Join(root, "up.bin"))
+	if serr != nil {
+		return hx.Failf("write-effect", "WRITE(n=%d): target vanished: %v", c.N, serr)
+	}
+	switch {
+	case res == -1:
+		if fi.Size() != 0 {
+			return hx.Failf("write-truth", "WRITE(n=%d) answered -1 (failed) but %d bytes were stored", c.N, fi.Size())
+		}
+	case res == int64(c.N):
+		if fi.Size() != int64(c.N) {
+			return hx.Failf("write-effect", "WRITE(n=%d) answered %d but the file has %d bytes", c.N, res, fi.Size())
+		}
+	default:
+		return hx.Failf("write-count", "WRITE(n=%d) answered %d (file has %d bytes)", c.N, res, fi.Size())
+	}
+	// still in step
+	m2 := hx.NewModel(root, true)
+	if err := m2.Step(conn, hx.Req{Op: "STAT", Path: "/up.bin"}); err != nil {
+		return err
+	}
+	st.Label(fmt.Sprintf("payload=%d", c.N))
+	st.NT(fmt.Sprintf("huge|%d", c.N))
+	st.Sample(c)
+	return nil
+}
+
+func TestC05Huge(t *testing.T) {
+	st := hx.NewStats("C05", "huge")
+	st.MarkExhaustive("WRITE_FILE with a payload of 2^31 bytes (both tiers) and of 2^31-1, 2^32-1 bytes (thorough)")
+	cases := func(yield func(c05HugeCase) bool) {
+		ns := []uint32{1 << 31}
+		if hx.Thorough() {
+			ns = append(ns, 1<<31-1, 1<<32-1)
+		}
+		for _, n := range ns {
+			if !yield(c05HugeCase{N: n}) {
+				return
+			}
+		}
+	}
+	hx.RunCases(t, st, cases, runC05Huge, hx.PropOpts{})
 }
